@@ -471,6 +471,21 @@ def run(chk):
     chk.oracle('unordered_containment_general', gcases, lambda c: prop_unordered_general(pt, c),
                nontrivial_fn=lambda c: True, key_fn=lambda c: json.dumps(c, sort_keys=True))
 
+    # call SEQUENCES on shared inputs (state leaking between calls), then the earliest calls of this run once more
+    sessions = [gen_session(rng) for _ in range(max(300, nrand // 3))]
+    chk.oracle('call_sessions', sessions, lambda c: prop_session(pt, c), nontrivial_fn=lambda c: True,
+               key_fn=lambda c: json.dumps(c, sort_keys=True))
+    sel_plain = (ex_cases if big or tier == 'thorough' else ex_cases[:: 2])
+    sel_cov = (cov_ex if big or tier == 'thorough' else cov_ex[:: 2])
+    for name, cs, fn in (('substring_exhaustive', sel_plain[:150], lambda c: prop_plain(pt, c)),
+                         ('coverage_exhaustive', sel_cov[:150], lambda c: prop_cov_plain(pt, c)),
+                         ('modified_search_and_coverage', ocases[:80], lambda c: prop_modified(pt, c)),
+                         ('unordered_containment_general', gcases[:80], lambda c: prop_unordered_general(pt, c)),
+                         ('call_sessions', sessions[:60], lambda c: prop_session(pt, c))):
+        chk.oracle('reissued_' + name, cs, fn, nontrivial_fn=lambda c: True,
+                   key_fn=lambda c: json.dumps(c, sort_keys=True, default=str))
+    shrink_sessions(chk)
+
     c17_reach.record(chk, reach)
     if tier == 'thorough':
         chk.leanchecker(['PeptVerif.Props.C16', 'PeptVerif.Lemmas.Search', 'PeptVerif.Model.Search'])
@@ -583,6 +598,104 @@ def prop_unordered(pt, c):
     return None
 
 
+def gen_session(rng):
+    """a SEQUENCE of calls on the same target / queries (objects and strings reused, flags toggled, results mutated)"""
+    kinds = rng.choice([{'internal'}, {'internal', 'nterm', 'cterm'}, {'internal', 'nterm', 'cterm', 'isotope', 'unknown', 'charge'}])
+    t = annot.gen_annotation(rng, 1, rng.choice([6, 14, 30]), residues=rng.choice(['AK', 'A', 'ACK']), p=rng.choice([0.0, 0.2, 0.5]),
+                             kinds=kinds, value_pool=POOL[:2], max_mods=2, mult_p=0.1, intervals=False)
+    qs = [gen_query(rng, t) for _ in range(rng.randint(1, 3))]
+    ops = []
+    for _ in range(rng.randint(4, 9)):
+        k = rng.choice(['cov', 'cov', 'pct', 'find', 'find', 'issub', 'unord', 'mutate'])
+        ops.append([k, rng.randrange(len(qs)), rng.random() < 0.5, rng.random() < 0.4])
+    return {'t': annot.dump(t, False), 'qs': [annot.dump(q, False) for q in qs], 'ops': ops, 'strings': rng.random() < 0.3}
+
+
+def prop_session(pt, c):
+    """every call against the reference computed from that call's own arguments; the argument objects are reused across
+    the calls and returned lists are overwritten before the next call"""
+    t = annot.undump(c['t'])
+    qs = [annot.undump(q) for q in c['qs']]
+    if c.get('strings'):
+        t, qs = t.serialize(), [q.serialize() for q in qs]
+    T = annot.undump(c['t'])
+    Q = [annot.undump(q) for q in c['qs']]
+    n = len(T._sequence)
+    last = None
+    for k, (op, qi, acc, ign) in enumerate(c['ops']):
+        q, Qq = qs[qi], Q[qi]
+        where = f'call {k + 1} of {len(c["ops"])} ({op}, query {qi}, accumulate={acc}, ignore_mods={ign}) on {c["t"]!r} / {c["qs"]!r}: '
+        if op == 'mutate':
+            if isinstance(last, list):
+                for j in range(len(last)):
+                    last[j] = 97
+                last.append(98)
+            continue
+        if op == 'cov':
+            occs = [(i, len(x._sequence)) for x in Q for i in ref_find(T, x, ign)]
+            exp = expected_cov(n, occs, acc)
+            last = pt.coverage(t, qs, accumulate=acc, ignore_mods=ign)
+            if list(last) != exp:
+                return where + f'coverage = {list(last)}, occurrences (offset, length) {occs} give {exp}'
+        elif op == 'pct':
+            occs = [(i, len(x._sequence)) for x in Q for i in ref_find(T, x, ign)]
+            marked = sum(1 for x in expected_cov(n, occs, False) if x)
+            got = pt.percent_coverage(t, qs, ignore_mods=ign)
+            if got != (marked / n if n else 0):
+                return where + f'percent_coverage = {got!r}, marked fraction is {marked}/{n}'
+        elif op == 'find':
+            exp = ref_find(T, Qq, ign)
+            last = pt.find_subsequence_indices(t, q, ignore_mods=ign)
+            if list(last) != exp:
+                return where + f'find_subsequence_indices = {list(last)}, offsets with equal residues and modifications are {exp}'
+        elif op == 'issub':
+            exp = bool(ref_find(T, Qq, False))
+            if pt.is_subsequence(q, t, order=True) != exp:
+                return where + f'is_subsequence(order=True) != {exp}'
+        elif op == 'unord':
+            kt, kq = ref_residue_keys(T), ref_residue_keys(Qq)
+            exp = all(kq[x] <= kt[x] for x in kq)
+            if pt.is_subsequence(q, t, order=False) != exp:
+                return where + f'is_subsequence(order=False) != {exp}'
+    return None
+
+
+def confirm_fresh(obj):
+    """re-evaluate a failing case in a fresh interpreter: description or None"""
+    import subprocess
+    import sys
+    code = ('import json,sys; from harness.props import c16; '
+            'print(json.dumps(c16.eval_failure(json.load(sys.stdin))))')
+    try:
+        p = subprocess.run([sys.executable, '-W', 'ignore', '-c', code], input=json.dumps(obj), capture_output=True, text=True,
+                           cwd=core.VERIF, timeout=120)
+        return json.loads(p.stdout.strip().split('\n')[-1])
+    except Exception as e:  # noqa
+        return f'fresh-interpreter replay not available: {type(e).__name__}'
+
+
+def shrink_sessions(chk):
+    for f in chk.failures:
+        if f['oracle'] != 'call_sessions':
+            continue
+        c = f['case']
+        if confirm_fresh({'oracle': 'call_sessions', 'case': c}) is None:
+            f['detail'] += ' [not reproduced in a fresh interpreter: depends on calls made earlier in this run]'
+            continue
+        ops = list(c['ops'])
+        i = tries = 0
+        while i < len(ops) and len(ops) > 1 and tries < 10:
+            cand = dict(c, ops=ops[:i] + ops[i + 1:])
+            tries += 1
+            if confirm_fresh({'oracle': 'call_sessions', 'case': cand}) is not None:
+                ops = cand['ops']
+            else:
+                i += 1
+        c = dict(c, ops=ops)
+        f['case'] = c
+        f['detail'] = str(confirm_fresh({'oracle': 'call_sessions', 'case': c}))[:2000] + ' [reproduced in a fresh interpreter]'
+
+
 def prop_unordered_general(pt, c):
     t, q = annot.undump(c['t']), annot.undump(c['q'])
     kt, kq = ref_residue_keys(t), ref_residue_keys(q)
@@ -612,6 +725,10 @@ def eval_failure(obj):
             return prop_unordered(pt, c)
         if o == 'unordered_containment_general':
             return prop_unordered_general(pt, c)
+        if o == 'call_sessions':
+            return prop_session(pt, c)
+        if o.startswith('reissued_'):
+            return eval_failure({'oracle': o[len('reissued_'):], 'case': c})
     except Exception as e:  # noqa
         return f'unexpected {type(e).__name__}: {e}'
     return 'unknown oracle ' + str(o)
